@@ -283,6 +283,10 @@ func c15Build(r *Run, state string) *c15Setup {
 		Act("disableAttester(K1)", &cctptypes.MsgDisableAttester{From: AttMgr.Str, Attester: Keys[0].Hex}),
 		Act("disableAttester(\"04\")", &cctptypes.MsgDisableAttester{From: AttMgr.Str, Attester: "04"}),
 		Act("enableAttester(\"0\")", &cctptypes.MsgEnableAttester{From: AttMgr.Str, Attester: "0"}),
+		// a second spelling of an enabled key is another registry entry: each transaction touches only the entry it names
+		Act("enableAttester(0xK1)", &cctptypes.MsgEnableAttester{From: AttMgr.Str, Attester: Keys[0].Spell(1)}),
+		Act("disableAttester(0xK1)", &cctptypes.MsgDisableAttester{From: AttMgr.Str, Attester: Keys[0].Spell(1)}),
+		Act("disableAttester(0xK2)", &cctptypes.MsgDisableAttester{From: AttMgr.Str, Attester: Keys[1].Spell(1)}),
 		Act("disableAttester(K2)", &cctptypes.MsgDisableAttester{From: AttMgr.Str, Attester: Keys[1].Hex}),
 		Act("linkTokenPair(0,token0) duplicate", &cctptypes.MsgLinkTokenPair{From: TokenCtl.Str, RemoteDomain: DomEth, RemoteToken: RemoteToken0, LocalToken: "uatom"}),
 		Act("linkTokenPair(5, 31 bytes)", &cctptypes.MsgLinkTokenPair{From: TokenCtl.Str, RemoteDomain: 5, RemoteToken: distinct32(0xF0)[:31], LocalToken: "uusdc"}),
